@@ -388,7 +388,8 @@ pub fn run(rt: &tokio::runtime::Runtime, pool: &KeyPool, sc: &Value) -> Value {
             Err(e) => err_class(&e),
         });
     }
-    json!({"results": results, "initial_files": initial_files, "final_files": read_dir_files(&s.metadata)})
+    json!({"results": results, "initial_files": initial_files, "final_files": read_dir_files(&s.metadata),
+           "base": base.timestamp()})
 }
 
 fn copy_tree(from: &Path, to: &Path) {
